@@ -125,6 +125,7 @@ func (u *Unit) safetyTags() []string { return []string{"C08"} }
 // ---------- instruction semantics ----------
 
 func (u *Unit) execInstr(st *State, ins ssa.Instruction) {
+	u.noteLeaks(st, ins)
 	switch x := ins.(type) {
 	case *ssa.DebugRef:
 		if obj, ok := x.Object().(*types.Var); ok && !x.IsAddr {
@@ -706,6 +707,8 @@ func (u *Unit) execFieldAddr(st *State, x *ssa.FieldAddr) {
 	fa := "fa_" + comp
 	u.pre.declFun(fa, fmt.Sprintf("(declare-fun %s (Int) Int)", fa))
 	st.vals[x] = mkT(fmt.Sprintf("(%s %s)", fa, r.S), SInt, x.Type())
+	// the address of a field of an existing object is not nil
+	st.assume(not(eq(st.vals[x], intLit(0))))
 	u.guardedAccess(st, x, structT, x.Field, r)
 }
 
